@@ -398,8 +398,13 @@ def in_domain(n: ast.AST) -> bool:
                for a in x.posonlyargs + x.args + x.kwonlyargs + [p for p in (x.vararg, x.kwarg) if p is not None])
 
 
-def helper_lambda(params: List[str], body_src: str) -> ast.Lambda:
-    return ast.parse("lambda %s: %s" % (", ".join(params), body_src), mode="eval").body
+def helper_lambda(params: List[str], body_src: Optional[str]) -> ast.Lambda:
+    """What rewrite_func_as_lambda makes of `def h(params): return body_src`; body_src None = a `return` without a
+    value: the Lambda's body is None (a raw value where a node is required)."""
+    lam = ast.parse("lambda %s: %s" % (", ".join(params), body_src if body_src is not None else "0"), mode="eval").body
+    if body_src is None:
+        lam.body = None
+    return lam
 
 
 class OutsideDomain(Exception):
